@@ -107,7 +107,7 @@ func init() {
 			"a built world may hold a clockwise closed way reversed (BuildOptions documents the inversion); the feature source must emit it as listed",
 			"tags are compared as a set of (mapped key, string value); order is C39's subject",
 		},
-		Quick: 3000, Thorough: 40000,
+		Quick: 8000, Thorough: 100000,
 		Required: []string{"rule_node_point", "rule_open_way_path", "rule_closed_way_untagged_path", "rule_closed_way_area_tagged", "rule_multipolygon_area",
 			"rule_multipolygon_holes", "rule_multipolygon_several_outers", "rule_multipolygon_unassemblable", "rule_member_node", "rule_member_open-way",
 			"rule_member_closed-way", "rule_member_multipolygon", "rule_member_relation", "rule_member_missing-way", "rule_member_missing-node",
